@@ -150,3 +150,12 @@ proof fn lemma_flush_step(ms0: Seq<Vec<PendingEntry<'_>>>, p0: Seq<PendingEntry<
         assert(ms0.take(k)[j] == ms0[j]);
     }
 }
+
+proof fn lemma_pending_ok_append<'a>(a: Seq<PendingEntry<'a>>, b: Seq<PendingEntry<'a>>)
+    requires pending_ok(a), pending_ok(b),
+    ensures pending_ok(a + b),
+{
+    assert forall|i: int| 0 <= i < (a + b).len() implies keynode_wf((#[trigger] (a + b)[i]).key) && keynode_events((a + b)[i].key).len() <= i32::MAX by {
+        if i < a.len() { assert((a + b)[i] == a[i]); } else { assert((a + b)[i] == b[i - a.len()]); }
+    }
+}
